@@ -495,6 +495,15 @@ def shard(ctx):
                    "2024-08-21T00:30:00Z", "2024-08-21T01:00:00+02:00", "2024-12-31T23:59:59-12:00", "2024-01-01T00:00:00+14:00", "not-a-date"]:
             judge(ctx, "parse_epoch", "literal", rule_text([], "parse_epoch(%s)" % gen.glit(ts)), [[ts]], "timestamp")
             judge(ctx, "parse_epoch", "variable", rule_text([("v", gen.glit(ts))], "parse_epoch(%v)"), [[ts]], "timestamp")
+    # ---- the same source string parsed twice in one evaluation, once as it is and once after a rewrite: two different structures
+    if ctx.mine(6):
+        for q_, src_, pat_, rep_ in (("json1", DOC["json1"], '"d"', '"zz"'), ("json1", DOC["json1"], "true", "false"), ("json2", DOC["json2"], "2", "22")):
+            rewritten = src_.replace(pat_, rep_)
+            for order in (0, 1):
+                a_, b_ = ("json_parse(%s)" % q_, "json_parse(regex_replace(%s, %s, %s))" % (q_, gen.glit(re.escape(pat_)), gen.glit(rep_)))
+                first, second, want_src = (a_, b_, rewritten) if order == 0 else (b_, a_, src_)
+                text = "rule r {\n    let first = %s\n    %%first exists\n    let res = %s\n    %%res == \"%s\"\n}\n" % (first, second, NEVER)
+                judge(ctx, "json_parse", "twice", text, [[want_src]], "same-source-parsed-twice")
     # ---- random strings through the unary string functions
     n = 60 if ctx.quick else 40000
     alphabet = "abXYeE z01925/%+-_.é"
